@@ -122,6 +122,10 @@ class ttensor:
 
     def _matches_order(self, array: np.ndarray) -> bool:
         """Check if provided array matches tensor memory layout."""
+        if isinstance(array, sparse.coo_matrix):
+            # a scipy sparse factor matrix has no dense memory layout (to_memory_order
+            # returns it unchanged as well)
+            return True
         if array.flags["C_CONTIGUOUS"] and self.order == "C":
             return True
         if array.flags["F_CONTIGUOUS"] and self.order == "F":
